@@ -17,6 +17,7 @@ import (
 	"sync/atomic"
 	"time"
 
+	"verifharness/internal/dagm"
 	"verifharness/internal/ev"
 	"verifharness/internal/node"
 	"verifharness/internal/snap"
@@ -279,6 +280,7 @@ type c2Routes struct {
 	repoActs map[string][]string
 	selKws   []string
 	kwCache  map[string][]string // "dir|type" -> keywords
+	mutPrefix map[string]string  // "pkg|type" -> key prefix into kwMutBranch
 	mu       sync.Mutex
 	repoDir  string
 }
@@ -302,6 +304,10 @@ func (rt *c2Routes) keywords(in *c2Inst) []string {
 	must(err, "locate ServeHTTP of "+in.Type)
 	kws, switches, err := serveHTTPKeywords(dir, typ)
 	must(err, "parse ServeHTTP of "+in.Type)
+	if rt.mutPrefix == nil {
+		rt.mutPrefix = map[string]string{}
+	}
+	rt.mutPrefix[k] = dir + "|" + typ + ":"
 	if switches == 0 || len(kws) < 2 {
 		infra("datatype %s: ServeHTTP in %s has no switch on the endpoint keyword that the extractor understands (found %d keywords)", in.Type, dir, len(kws))
 	}
@@ -322,6 +328,21 @@ func (rt *c2Routes) keywords(in *c2Inst) []string {
 	rt.kwCache[k] = out
 	return out
 }
+
+// hasMutBranch: does the keyword's case clause in the datatype's ServeHTTP test for POST / PUT / DELETE?
+func (rt *c2Routes) hasMutBranch(in *c2Inst, kw string) bool {
+	rt.keywords(in)
+	rt.mu.Lock()
+	p := rt.mutPrefix[in.GoPkg+"|"+in.GoType]
+	rt.mu.Unlock()
+	kwMutBranchMu.Lock()
+	defer kwMutBranchMu.Unlock()
+	return kwMutBranch[p+kw]
+}
+
+// c2MustBeEffective: (type|keyword|method) whose documented payload was added in the third round
+var c2MustBeEffective = []string{"labelmap|blocks|POST", "labelmap|ingest-supervoxels|POST", "labelarray|blocks|POST",
+	"neuronjson|keyvalues|POST", "annotation|labels|POST", "neuronjson|json_schema|POST", "neuronjson|schema|POST", "neuronjson|schema_batch|POST"}
 
 // ---------- prepared repository ----------
 
@@ -509,6 +530,9 @@ type c2Stats struct {
 	effective                                                      map[string]bool // type|keyword|method whose request changed a committed node when the gate was open
 	ineffective                                                    map[string]bool
 	pairs                                                          map[string]bool // type|keyword
+	otherPopulated, otherDeleted                                   int64           // later history: versions of the extra synced labelmap populated / populated instances deleted
+	childKinds                                                     map[string]int  // "<action> via <addressing>" -> child-creation verdicts
+	mutPairs                                                       map[string]bool // type|keyword whose case clause in ServeHTTP has a POST / PUT / DELETE branch
 	unstable                                                       map[string]bool
 	skipped                                                        map[string]string
 	rowsHit                                                        map[string]bool
@@ -645,6 +669,9 @@ func (s *c2Sweeper) sweepInstance(rp *c2Repo, cfg c2Config, in *c2Inst, rng *ran
 	for _, kw := range kws {
 		s.st.mu.Lock()
 		s.st.pairs[in.Type+"|"+kw] = true
+		if s.routes.hasMutBranch(in, kw) {
+			s.st.mutPairs[in.Type+"|"+kw] = true
+		}
 		s.st.mu.Unlock()
 		// pass 1: requests without privilege; pass 2 (token servers only): with the admin token
 		for pass := 0; pass < 2; pass++ {
@@ -756,6 +783,63 @@ func (s *c2Sweeper) sweepInstance(rp *c2Repo, cfg c2Config, in *c2Inst, rng *ran
 	}
 }
 
+// hasChildOnOwnBranch reads the repo's DAG: does the node have a child on its own branch?
+func (s *c2Sweeper) hasChildOnOwnBranch(rp *c2Repo, u string) bool {
+	r, err := rp.w.n.HTTP("GET", "/api/repo/"+rp.w.root+"/info", nil)
+	must(err, "repo info")
+	var ri dagm.RepoInfo
+	if json.Unmarshal(r.Bytes(), &ri) != nil {
+		return false
+	}
+	nd, ok := ri.DAG.Nodes[u]
+	if !ok {
+		return false
+	}
+	for _, c := range ri.DAG.Nodes {
+		for _, pv := range c.Parents {
+			if pv == nd.VersionID && c.Branch == nd.Branch && len(c.Parents) == 1 {
+				return true
+			}
+		}
+	}
+	return false
+}
+
+// altAddresses returns other spellings of a committed node's address that resolve to it right now:
+// {"prefix", <first 10 digits>} and {"root:branch", <root>:<branch>} (the latter only while the node is the
+// head of its branch).  Each is confirmed through datastore.MatchingUUID before use.
+func (s *c2Sweeper) altAddresses(rp *c2Repo, u string) [][2]string {
+	var out [][2]string
+	resolves := func(addr string) bool {
+		var o struct{ UUID string }
+		if err := rp.w.n.Call("ds.matchuuid", map[string]string{"Str": addr}, &o); err != nil {
+			if _, isCall := err.(*node.CallError); !isCall {
+				must(err, "ds.matchuuid")
+			}
+			return false
+		}
+		return o.UUID == u
+	}
+	if len(u) > 10 && resolves(u[:10]) {
+		out = append(out, [2]string{"prefix", u[:10]})
+	}
+	r, err := rp.w.n.HTTP("GET", "/api/repo/"+rp.w.root+"/info", nil)
+	must(err, "repo info")
+	var ri dagm.RepoInfo
+	if json.Unmarshal(r.Bytes(), &ri) == nil {
+		if nd, ok := ri.DAG.Nodes[u]; ok {
+			b := nd.Branch
+			if b == "" {
+				b = "master"
+			}
+			if addr := rp.w.root + ":" + b; !strings.ContainsAny(b, "/~") && resolves(addr) {
+				out = append(out, [2]string{"root:branch", addr})
+			}
+		}
+	}
+	return out
+}
+
 // sweepLevel sends every node-level and repo-level route x method x token.
 func (s *c2Sweeper) sweepLevel(rp *c2Repo, cfg c2Config, rng *rand.Rand) {
 	w := rp.w
@@ -852,11 +936,35 @@ func (s *c2Sweeper) sweepLevel(rp *c2Repo, cfg c2Config, rng *rand.Rand) {
 									Requests: []c2Sent{se}, Row: row, Note: "the specification refuses this request on a committed node; the server answered outside 4xx"})
 							}
 						}
-						if row.Child && act == "branch" {
-							atomic.AddInt64(&s.st.childChecked, 1)
-							if r.Status != 200 {
+						if row.Child && lv.scope == "node" && (act == "branch" || act == "tag" || act == "newversion") {
+							// creating a child stays allowed: a new branch and a tag always; a new version on the node's own
+							// branch unless the node already has a child there (DvidDAG's SisterHas, read off the server's own DAG)
+							judge := func(se c2Sent, how string) {
+								atomic.AddInt64(&s.st.childChecked, 1)
+								s.st.mu.Lock()
+								s.st.childKinds[act+" via "+how]++
+								s.st.mu.Unlock()
+								if se.Status == 200 {
+									return
+								}
+								if act == "newversion" && s.hasChildOnOwnBranch(rp, target) {
+									return
+								}
 								s.run.Violation("c02-child", c2Divergence{Kind: "child-creation-refused", Config: cfg, Variant: w.variant, Target: target, Keyword: lv.scope + "/" + act,
-									Requests: []c2Sent{se}, Row: row, Note: "creating a child version (new branch) of a committed node must stay allowed"})
+									Requests: []c2Sent{se}, Row: row, Note: "creating a child version (" + act + ", committed node addressed by " + how + ") of a committed node must stay allowed"})
+							}
+							judge(se, "uuid")
+							// the same request with the committed node addressed by a UUID prefix and, while it is the head of
+							// its branch, by <root>:<branch>
+							for _, alt := range s.altAddresses(rp, target) {
+								url2 := "/api/node/" + alt[1] + "/" + act + joinQuery("", tokQuery(tok, cfg.TokenSet))
+								b2 := body(lv.scope, act)
+								r2, ok2 := s.send(rp, m, url2, b2)
+								se2 := c2Sent{Method: m, URL: url2, Body: trunc(string(b2), 160), Tok: tok, Status: r2.Status, Resp: trunc(string(r2.Bytes()), 160), Expect: row.Out}
+								sent = append(sent, se2)
+								if ok2 {
+									judge(se2, alt[0])
+								}
 							}
 						}
 					}
@@ -1025,6 +1133,7 @@ func (rpl *c2Replayer) replay(b gateBehaviour, idx int, variant int, only map[st
 	uuids := map[int]string{1: w.root}
 	kids := map[int]int{}
 	lk := []bool{false}
+	otherMade := false // the extra populated instances of the "new instance" step exist
 	baseline := map[int]*snap.Snap{}
 	gen := 0
 	var sent []c2Sent
@@ -1122,7 +1231,29 @@ func (rpl *c2Replayer) replay(b gateBehaviour, idx int, variant int, only map[st
 					kids[st.V]++
 				}
 			case st.Rq.Scope == "repo" && st.Rq.Action == "instance":
-				do("POST", "/api/repo/"+u+"/instance", []byte(`{"typename":"keyvalue","dataname":"other"}`), st.Tok, st.Out)
+				r := do("POST", "/api/repo/"+u+"/instance", []byte(`{"typename":"keyvalue","dataname":"other"}`), st.Tok, st.Out)
+				if r.Status == 200 && !otherMade {
+					// with it a labelmap and an annotation instance synced to it, populated at every open version:
+					// the later deletion then removes a POPULATED instance that another one is synced with
+					otherMade = true
+					if os.Getenv("C02_DEBUG") != "" {
+						fmt.Printf("DEBUG new-instance step: lk=%v uuids=%d\n", lk, len(uuids))
+					}
+					n.HTTP("POST", "/api/repo/"+u+"/instance", []byte(`{"typename":"labelmap","dataname":"otherlm","BlockSize":"32,32,32"}`))
+					n.HTTP("POST", "/api/repo/"+u+"/instance", []byte(`{"typename":"annotation","dataname":"otherann","sync":"otherlm"}`))
+					for v := 1; v <= len(lk); v++ {
+						if !lk[v-1] && uuids[v] != "" {
+							if rr, _ := n.HTTP("POST", "/api/node/"+uuids[v]+"/otherlm/raw/0_1_2/"+c2Vol+"/"+c2Off, c2Labels(v)); rr.Status == 200 {
+								atomic.AddInt64(&rpl.st.otherPopulated, 1)
+							} else if os.Getenv("C02_DEBUG") != "" {
+								fmt.Printf("DEBUG populate otherlm at %s: %d %s\n", uuids[v], rr.Status, trunc(string(rr.Bytes()), 200))
+							}
+							n.HTTP("POST", "/api/node/"+uuids[v]+"/otherann/elements", c2Elements(v))
+							n.HTTP("POST", "/api/node/"+uuids[v]+"/other/key/k1", []byte(`"other"`))
+						}
+					}
+					must(n.Idle(), "idle")
+				}
 			case st.Rq.Scope == "rpc":
 				// the same step as a command of the RPC path (c02_rpc.go)
 				if st.Rq.Action == "child" && !refusedWanted && st.Locked && len(lk) >= b.MaxNodes {
@@ -1179,6 +1310,24 @@ func (rpl *c2Replayer) replay(b gateBehaviour, idx int, variant int, only map[st
 			kids[st.P]++
 			kids[st.Q]++
 		case "deleteinstance":
+			if otherMade {
+				// the populated labelmap first (the annotation instance stays, synced with something that is gone)
+				if err := n.Call("gate.deleteinstance", map[string]string{"uuid": w.root, "name": "otherlm"}, nil); err != nil {
+					if _, isCall := err.(*node.CallError); !isCall {
+						must(err, "delete instance")
+					}
+				} else {
+					atomic.AddInt64(&rpl.st.otherDeleted, 1)
+				}
+				for t := 0; t < 400; t++ {
+					r, err := n.HTTP("GET", "/api/node/"+w.root+"/otherlm/info", nil)
+					must(err, "poll deletion")
+					if r.Status != 200 {
+						break
+					}
+					time.Sleep(5 * time.Millisecond)
+				}
+			}
 			err := n.Call("gate.deleteinstance", map[string]string{"uuid": w.root, "name": "other"}, nil)
 			if err != nil {
 				if _, isCall := err.(*node.CallError); !isCall {
@@ -1285,7 +1434,7 @@ func checkC02(c *Ctx) int {
 	run := ev.NewRun("C02", c.Tier, "model_checking")
 	t0 := time.Now()
 	routes := c2LoadRoutes()
-	st := &c2Stats{effective: map[string]bool{}, ineffective: map[string]bool{}, pairs: map[string]bool{}, unstable: map[string]bool{}, skipped: map[string]string{}, rowsHit: map[string]bool{}}
+	st := &c2Stats{effective: map[string]bool{}, ineffective: map[string]bool{}, pairs: map[string]bool{}, mutPairs: map[string]bool{}, childKinds: map[string]int{}, unstable: map[string]bool{}, skipped: map[string]string{}, rowsHit: map[string]bool{}}
 
 	// TLC: the decision table comes from a one-node run of the gate model (seconds); the
 	// exhaustive gate model and the history model are checked in the background while the
@@ -1492,6 +1641,22 @@ func checkC02(c *Ctx) int {
 		}
 	}
 	sort.Strings(noEffect)
+	// the weakness counter: keywords whose handler has a POST / PUT / DELETE branch (go/ast, a lower bound) and
+	// for which no request changed a committed node even with the gate open - "refused" is all that is shown
+	var mutNoEffect []string
+	for _, pair := range noEffect {
+		if st.mutPairs[pair] {
+			mutNoEffect = append(mutNoEffect, pair)
+		}
+	}
+	// payloads added for keywords that had none must work: a payload that stops being effective is a
+	// harness regression (exit 2), not a verdict
+	for _, ek := range c2MustBeEffective {
+		if st.ineffective[ek] && !st.effective[ek] {
+			run.Write()
+			infra("the documented payload for %s no longer changes a committed node in full-write mode (payloads() in c02_world.go)", ek)
+		}
+	}
 	types := map[string]bool{}
 	for k := range st.pairs {
 		types[strings.SplitN(k, "|", 2)[0]] = true
@@ -1518,12 +1683,25 @@ func checkC02(c *Ctx) int {
 	run.Set("snapshots_compared", st.snapshots)
 	run.Set("refusals_checked", st.refusedChecked)
 	run.Set("child_creations_checked", st.childChecked)
+	run.Set("child_creations_by_action_and_addressing", st.childKinds)
+	run.Set("split_supervoxel_writes_in_histories", atomic.LoadInt64(&c2SplitSVDone))
+	run.Set("later_history_populated_synced_instances_deleted", st.otherDeleted)
+	run.Set("later_history_versions_populated_before_deletion", st.otherPopulated)
 	run.Set("requests_under_exception", st.excRequests)
 	run.Set("route_pairs_swept", len(st.pairs))
 	run.Set("datatypes_swept", list(types))
 	run.Set("datatypes_not_instantiable", st.skipped)
 	run.Set("effective_payloads", list(st.effective))
 	run.Set("keywords_without_effective_mutating_payload", noEffect)
+	run.Set("keywords_with_mutating_branch", len(st.mutPairs))
+	run.Set("mutating_keywords_without_effective_payload", mutNoEffect)
+	run.Set("mutating_keywords_without_effective_payload_count", len(mutNoEffect))
+	var nonLit []string
+	for k := range resolvedNonLiteral {
+		nonLit = append(nonLit, k)
+	}
+	sort.Strings(nonLit)
+	run.Set("keywords_from_non_literal_case_expressions", nonLit)
 	run.Set("unstable_reads_dropped", list(st.unstable))
 	run.Set("node_crashes_during_sweep", st.crashes)
 	run.Set("node_hangs_during_sweep", st.hangs)
